@@ -809,6 +809,144 @@ def support_psfphot(ctx, n):
                 ctx.violation('support:psfphot:residual-nddata:raises:' + type(e).__name__, str(e)[:120], detail)
 
 
+def _arr(q):
+    return np.asarray(getattr(q, 'value', q), float)
+
+
+def _same(a, b):
+    return getattr(a, 'unit', None) == getattr(b, 'unit', None) and _arr(a).shape == _arr(b).shape \
+        and bool(np.array_equal(_arr(a), _arr(b)))
+
+
+HIST_ARGS = [(None, False), ((7, 7), False), ((7, 7), True), ((4, 6), False), (5, True), ((4, 6), True)]
+
+
+def history_run(detail, on_request=None):
+    """execute one recorded history (see support_psfphot_history) on the implementation;
+    returns (failure or None, number of images fitted); failure = (signature, what, extra)."""
+    import astropy.units as u
+    from astropy.table import QTable, Table
+    from photutils.background import LocalBackground
+    from photutils.datasets import make_model_image
+    from photutils.detection import DAOStarFinder
+    from photutils.psf import CircularGaussianPRF, IterativePSFPhotometry, PSFPhotometry, SourceGrouper
+    kind, fw, use_lb, use_unit = detail['kind'], detail['fwhm'], detail['localbkg'], detail['unit']
+
+    def make():
+        psf = CircularGaussianPRF(fwhm=fw)
+        lb = LocalBackground(4, 7) if use_lb else None
+        if kind == 'psfphot':
+            return PSFPhotometry(psf, (5, 5), localbkg_estimator=lb, aperture_radius=4)
+        return IterativePSFPhotometry(psf, (5, 5), finder=DAOStarFinder(10.0, 2.5),
+                                      grouper=SourceGrouper(3.0) if kind == 'iter-all' else None,
+                                      localbkg_estimator=lb, aperture_radius=4, mode=kind[5:])
+    psf_ref = CircularGaussianPRF(fwhm=fw)                 # never handed to the code under test
+    phot = make()
+    done = 0
+    for k, step in enumerate(detail['history']):
+        ny, nx = step['shape']
+        xs, ys, fl, ninit = step['x'], step['y'], step['flux'], step['n_init']
+        truth = Table({'x_0': xs, 'y_0': ys, 'flux': fl})
+        data = make_model_image((ny, nx), psf_ref, truth, model_shape=(9, 9))
+        data = data + np.array([[((7 * y + 3 * x) % 5) * 0.01 for x in range(nx)] for y in range(ny)]) + 0.5
+        init = (QTable if use_unit else Table)({'x': list(step['x_init']), 'y': list(step['y_init'])})
+        init['flux'] = np.array(fl[:ninit]) * u.Jy if use_unit else np.array(fl[:ninit])
+        d = data * u.Jy if use_unit else data
+        with warnings.catch_warnings():
+            warnings.simplefilter('ignore')
+            try:
+                res = phot(d, init_params=init)
+                fresh = make()
+                res_f = fresh(d, init_params=init)
+            except Exception as e:  # noqa: BLE001  (fitting is C12's subject)
+                return None, done
+            if res is None or res_f is None:
+                return None, done
+            done += 1
+            tb0 = Table()
+            tb0['x_0'] = _arr(res['x_fit'])
+            tb0['y_0'] = _arr(res['y_fit'])
+            tb0['flux'] = _arr(res['flux_fit'])
+            for psf_shape, inc in step['requests']:
+                psf_shape = tuple(psf_shape) if isinstance(psf_shape, list) else psf_shape
+                extra = {'failing_image': k, 'psf_shape': psf_shape, 'include_localbkg': inc}
+                try:
+                    mimg = phot.make_model_image((ny, nx), psf_shape=psf_shape, include_localbkg=inc)
+                    rimg = phot.make_residual_image(d, psf_shape=psf_shape, include_localbkg=inc)
+                    mimg_f = fresh.make_model_image((ny, nx), psf_shape=psf_shape, include_localbkg=inc)
+                    rimg_f = fresh.make_residual_image(d, psf_shape=psf_shape, include_localbkg=inc)
+                except Exception as e:  # noqa: BLE001
+                    return ('support:psfphot-history:raises:' + type(e).__name__,
+                            'model/residual image raised on a re-used instance: ' + str(e)[:120], extra), done
+                if on_request:
+                    on_request(k, psf_shape, inc)
+                if not _same(mimg, mimg_f) or not _same(rimg, rimg_f):
+                    return ('support:psfphot-history:differs-from-fresh-instance',
+                            'model/residual image of a re-used instance differs from that of a fresh instance '
+                            'run on the same image', extra), done
+                if not _same(rimg, d - mimg):
+                    return ('support:psfphot-history:residual', 'residual image != data - model image', extra), done
+                if psf_shape is not None:
+                    tb = tb0.copy()
+                    if inc:
+                        tb['local_bkg'] = _arr(res['local_bkg'])
+                    sh = (psf_shape, psf_shape) if isinstance(psf_shape, int) else tuple(psf_shape)
+                    want, mag = float_oracle((ny, nx), psf_ref, tb, 'x_0', 'y_0', sh)
+                    if not close(_arr(mimg), want, mag, len(tb)):
+                        return ('support:psfphot-history:superposition', 'model image is not the superposition of '
+                                'the results table of the LAST call', extra), done
+                # the caller may scribble on what it got; later requests must not see it
+                try:
+                    _arr(mimg)[...] = -12345.0
+                    _arr(rimg)[...] = 54321.0
+                except ValueError:
+                    pass
+    return None, done
+
+
+def support_psfphot_history(ctx, n):
+    """History test: ONE PSFPhotometry / IterativePSFPhotometry instance is re-used on several
+    different images; between and after the calls the model / residual images are requested with
+    varying (and repeated) arguments.  After every call each request must equal (a) the superposition
+    of THAT call's public results table, (b) what a fresh instance gives for the same image, and
+    residual == data - model bitwise.  Catches state carried over between calls (memoised images,
+    stale fit results, aliasing of returned arrays)."""
+    rng = ctx.rng
+    for it in range(n):
+        kind = ['psfphot', 'iter-new', 'iter-all'][it % 3]
+        hist = []
+        detail = {'support': 'psfphot-history', 'kind': kind, 'fwhm': rng.choice([2.0, 2.5, 3.0]),
+                  'localbkg': rng.random() < 0.5, 'unit': kind == 'psfphot' and rng.random() < 0.3, 'history': hist}
+        shape0 = (rng.randint(15, 22), rng.randint(15, 22))
+        for k in range(rng.choice([2, 2, 3])):
+            # mostly the same frame (so that any key built from the arguments collides), sometimes another
+            ny, nx = shape0 if rng.random() < 0.7 else (rng.randint(15, 22), rng.randint(15, 22))
+            nsrc = rng.randint(2, 4)
+            xs = [rng.uniform(2, nx - 3) for _ in range(nsrc)]
+            ys = [rng.uniform(2, ny - 3) for _ in range(nsrc)]
+            fl = [rng.uniform(80, 500) for _ in range(nsrc)]
+            ninit = nsrc
+            if kind != 'psfphot':
+                fl[-1] = rng.uniform(300, 500)           # found by the finder in the residual of iteration 1
+                ninit = nsrc - 1
+            reqs = [rng.choice(HIST_ARGS) for _ in range(rng.randint(2, 4))]
+            reqs.append(reqs[0])                                     # a repeated request
+            if k > 0:
+                reqs.insert(0, hist[-1]['requests'][0])              # the first request of the previous image
+            hist.append({'shape': [ny, nx], 'x': xs, 'y': ys, 'flux': fl, 'n_init': ninit,
+                         'x_init': [x + rng.uniform(-0.3, 0.3) for x in xs[:ninit]],
+                         'y_init': [y + rng.uniform(-0.3, 0.3) for y in ys[:ninit]],
+                         'requests': [[list(a) if isinstance(a, tuple) else a, b] for a, b in reqs]})
+
+        def on_request(k, psf_shape, inc, kind=kind, detail=detail):
+            ctx.support('psfphot-history:' + kind)
+            ctx.count_case(['psfphot-history', kind, k, detail['history'][k]['x'], str(psf_shape), inc], True)
+        fail, done = history_run(detail, on_request)
+        ctx.stat('psfphot-history', f'{kind}:images_fitted={done}')
+        if fail:
+            ctx.violation(fail[0], fail[1], dict(detail, **fail[2]))
+
+
 def support_psf_sim(ctx, n):
     """make_psf_model_image returns (image, params) with image == make_model_image(params)."""
     from photutils.datasets import make_model_image
@@ -875,6 +1013,10 @@ def run(ctx):
         'driven through the public API after a real fit; residual == data - model image compared bitwise, '
         'superposition compared with the rounding bound (support tests; the fit itself is C12); the theorem '
         'residual_is_data_minus_model is about C18_Model.residual (np.subtract(data, model image))',
+        'histories: one PSFPhotometry / IterativePSFPhotometry (new, all) instance re-used on 2-3 different images '
+        'with model / residual images requested between and after the calls (varying and repeated arguments): '
+        'each request == superposition of the results table of that call == fresh instance, residual == data - model '
+        '(support test; no Coq model of the state of the photometry objects)',
         'input model and table unchanged: snapshot comparison on every case (no theorem: the Coq model is a pure '
         'function; loop_is_fold_of_independent_rows shows that the working copy never leaks parameters between '
         'rows)',
@@ -945,10 +1087,18 @@ def run(ctx):
     support_models(ctx, 60 if not thorough else 500)
     support_psf_sim(ctx, 10 if not thorough else 60)
     support_psfphot(ctx, 9 if not thorough else 45)
+    support_psfphot_history(ctx, 6 if not thorough else 36)
 
 
 def replay(obj):
     r = obj['replay']
+    if r.get('support') == 'psfphot-history':
+        fail, done = history_run(r)
+        print('images fitted:', done)
+        if fail:
+            print('FAILS:', fail[0], '-', fail[1], fail[2])
+        print('property holds on this history' if not fail else 'property FAILS on this history')
+        return 0 if not fail else 1
     if r.get('support') == 'models':
         fails = support_one(r)
         for sig, what in fails:
